@@ -156,8 +156,10 @@ class Ctx(object):
             return True
         t0 = time.time()
         # portfolio: default z3 (MBQI + E-matching), then E-matching only, then a reseeded default run
-        variants = (("z3", None), ("z3-ematching", {"mbqi": False, "auto_config": False}), ("z3-seed7", {"random_seed": 7, "smt.random_seed": 7}))
-        budget = [self.prove_timeout_ms // 2, self.prove_timeout_ms // 4, self.prove_timeout_ms // 4]
+        # (a short z3 run decides almost everything; what it leaves goes to cvc5 BEFORE z3 is given its long budget: goals that
+        # are hard for one instantiation strategy are typically immediate for the other)
+        variants = (("z3", None), ("z3", None), ("z3-ematching", {"mbqi": False, "auto_config": False}), ("z3-seed7", {"random_seed": 7, "smt.random_seed": 7}))
+        budget = [self.prove_timeout_ms // 4, self.prove_timeout_ms // 2, self.prove_timeout_ms // 4, self.prove_timeout_ms // 4]
         if hint:
             budget = [2000]        # a hint is a single-instantiation fact: cheap or useless
         r = z3.unknown
